@@ -55,8 +55,8 @@ def _defs_by_path(f):
             if len(it) > 2:
                 out[prefix + '::NoN%d' % it[0]] = (it[0], it[2])
                 nested(prefix + '::NoN%d' % it[0], it[2])
-    for k, (kind, A, B) in enumerate(f['pairs']):
-        for side, d in (('A', A), ('B', B)):
+    for k, e in enumerate(f['pairs']):
+        for side, d in zip('ABC', e[1:]):
             p = 'Msg%d%s::NoG%d' % (k, side, k)
             out[p] = (schemagen.C14_COUNT + k, d)
             nested(p, d)
@@ -114,9 +114,30 @@ def crosscheck(f, job, part):
     return recs
 
 
+def find_triples(cols, want=2):
+    """three member sets with one hash: for a colliding pair (x, y) of size 2 a third set {x0 + 2, t} is looked for by running
+       the real hash over every t in 5001..65535 (the hash is linear over GF(2), such a t exists for most pairs)"""
+    out = []
+    for (x, y) in cols:
+        if len(x) != 2 or len(out) >= want:
+            continue
+        h = hashes([' '.join(str(t) for t in x)])[0]
+        base = x[0] + 2
+        used = set(x) | set(y)
+        cands = [(base, t) for t in range(5001, 65536) if t not in used and t != base]
+        hs = hashes([' '.join(str(t) for t in sorted(c)) for c in cands])
+        for c, hc in zip(cands, hs):
+            if hc == h and base not in used:
+                out.append((x, y, tuple(sorted(c))))
+                break
+    return out
+
+
 def family(tier, a):
     cols, stats = search_collisions(a)
-    return schemagen.c14_family(tier, cols), stats, cols
+    triples = find_triples(cols, 1 if tier == 'quick' else 4)
+    stats['hash_triples_found'] = len(triples)
+    return schemagen.c14_family(tier, cols, triples), stats, cols
 
 
 def run_part(pid, part, tier, tmp, t_end):
@@ -135,7 +156,8 @@ def run_part(pid, part, tier, tmp, t_end):
     for j in done:
         recs.extend(r for r in j.records if r.get('t') != 'sample')
         recs.extend(crosscheck(byid[j.sid], j, part))
-        for (kind, A, B) in byid[j.sid]['pairs']:
+        for e in byid[j.sid]['pairs']:
+            kind = e[0]
             kinds['pairs:' + kind] = kinds.get('pairs:' + kind, 0) + 1
             npairs += 1
     c = {'family_size': len(fam), 'family_run': len(done), 'definition_pairs': npairs}
@@ -192,7 +214,7 @@ check('C14',
            'against f8c on every group of every schema (f8c prints each group\'s hash and whether it shares static data into the generated header). Per message: member set, order, types, '
            'mandatory flags of the group as read back through the generated traits must be those of its own definition, and every lattice message populated with its own members in its own '
            'order must pass the wire-image and round-trip oracles.',
-      level_note='Scope tags pair:<distinct-sets|nested-differs|same-set-different-order|same-set-different-flags|hash-collision|nested-hash-collision> and side:<first|second> say which kind of pair a case belongs to. '
+      level_note='Scope tags pair:<distinct-sets|nested-differs|same-set-different-order|same-set-different-flags|hash-collision|nested-hash-collision|hash-collision-triple> and side:<first|second> say which kind of pair a case belongs to. '
                  'The property text names different member fields and different nested groups; pairs that differ only in order or flags are part of the space and tagged separately. '
                  'Only the first colliding pairs of the search become schemas (the search itself is complete over its universe and reports the totals).',
       rule='program = one schema; disagreements_checked = metadata attribute comparisons + lattice messages judged + hash cross-checks; non-trivial = message metadata unit or lattice message with a populated group',
